@@ -19,6 +19,12 @@ from . import special as S
 
 
 def _active():
+    c = V.get_context()
+    return c is not None and not getattr(c, "concrete", False)
+
+
+def _rng_active():
+    """RNG/clock models also feed a concrete re-execution (the draws are the model's values)"""
     return V.get_context() is not None
 
 
@@ -389,11 +395,15 @@ def _obj_map2(f, a, b):
 
 
 def _smax_fork(a, b):
-    # If-term (no fork): the solver sees max as a case split
+    # If-term (no fork): the solver sees max as a case split; with ctx.fork_max the path forks instead (polynomial obligations)
+    if getattr(V.get_context(), "fork_max", False) and (is_sym(a) or is_sym(b)):
+        return a if bool(a >= b) else b
     return V.smax(a, b)
 
 
 def _smin_fork(a, b):
+    if getattr(V.get_context(), "fork_max", False) and (is_sym(a) or is_sym(b)):
+        return a if bool(a <= b) else b
     return V.smin(a, b)
 
 
@@ -483,7 +493,7 @@ class RandomProxy:
         return getattr(_np.random, n)
 
     def seed(self, s=None):
-        if _active():
+        if _rng_active():
             RNG.seed(s)
         else:
             _np.random.seed(s)
@@ -495,10 +505,12 @@ class RandomProxy:
         a = _np.empty(n, dtype=object)
         for i in range(n):
             a[i] = RNG.draw(kind, **kw)
+        if not _active():  # concrete re-execution: ordinary numeric array
+            a = a.astype(int if kw.get("integer") else float)
         return a.reshape(shp)
 
     def uniform(self, low=0.0, high=1.0, size=None):
-        if not _active():
+        if not _rng_active():
             return _np.random.uniform(low, high, size)
         u = self._many("uniform", size, lo=0, hi=1)
         if (isinstance(low, (int, float)) and low == 0) and (isinstance(high, (int, float)) and high == 1):
@@ -512,13 +524,13 @@ class RandomProxy:
     rand = lambda self, *shape: self.uniform(size=shape if shape else None)
 
     def normal(self, loc=0.0, scale=1.0, size=None):
-        if not _active():
+        if not _rng_active():
             return _np.random.normal(loc, scale, size)
         z = self._many("normal", size)
         return loc + scale * z
 
     def standard_normal(self, size=None):
-        if not _active():
+        if not _rng_active():
             return _np.random.standard_normal(size)
         return self._many("normal", size)
 
@@ -526,18 +538,18 @@ class RandomProxy:
         return self.standard_normal(size=shape if shape else None)
 
     def poisson(self, lam=1.0, size=None):
-        if not _active():
+        if not _rng_active():
             return _np.random.poisson(lam, size)
         return self._many("poisson", size, lo=0, hi=POISSON_MAX[0], integer=True)
 
     def exponential(self, scale=1.0, size=None):
-        if not _active():
+        if not _rng_active():
             return _np.random.exponential(scale, size)
         e = self._many("exponential", size, lo=0)
         return scale * e
 
     def choice(self, a, size=None, **kw):
-        if not _active():
+        if not _rng_active():
             return _np.random.choice(a, size=size, **kw)
         seq = list(a) if not isinstance(a, int) else list(range(a))
         i = RNG.draw("choice", lo=0, hi=len(seq) - 1, integer=True)
